@@ -50,7 +50,7 @@ def goFacts : GoFacts :=
     `genValueRecv`: a receiver without node is the constant `n.recv.val`, not a frame read) -/
 def sourceHashes : List (String × String) :=
   [("_select", "cd8dc2eaadeedc62"),
-   ("clauseChanDir", "6fe26ead01991e91"),
+   ("clauseChanDir", "16908262bfe9789f"),
    ("getFunc", "767f1bf470b0d0fd"),
    ("frame.clone", "ccd71f62c6588b0a"),
    ("newFrame", "da1db819d5067f56"),
